@@ -1,5 +1,5 @@
 (* Props/C08.v — property C08: symmetry under class swap, direction reversal and rescaling. Statements only. *)
-From SA Require Import Model.Symmetry Model.Threshold Proofs.SymmetryFacts Proofs.InvIncrFacts Proofs.EquivarianceFacts Proofs.NegationFacts Proofs.AucInvarianceFacts Proofs.EerEquivarianceFacts Proofs.EerFacts Proofs.CarrierB64.
+From SA Require Import Model.Symmetry Model.Threshold Proofs.SymmetryFacts Proofs.InvIncrFacts Proofs.EquivarianceFacts Proofs.NegationFacts Proofs.AucInvarianceFacts Proofs.EerEquivarianceFacts Proofs.EerFacts Proofs.CarrierB64 Proofs.AucAffineFacts Proofs.AucNegateFacts Proofs.AucFacts.
 From SA Require Import Model.Eer.
 From SA Require Import Model.Auc Model.Harness.
 Open Scope Q_scope.
@@ -150,6 +150,51 @@ Theorem C08_eer_affine_compatible :
   end.
 Proof. exact eer_affine_scores. Qed.
 Print Assumptions C08_eer_affine_compatible.
+
+(* PARTIAL AUC, every window [lower, upper] and every pair of axes: unchanged (the same rational, not only ==) under
+   an increasing affine map that commutes with nextafter on the object's scores — the evaluation points are the
+   mapped points, the confusion matrices at them are the same, so auc() runs on the same two rate vectors *)
+Theorem C08_partial_auc_affine_compatible :
+  forall (succ pred : Q -> Q) (a b : Q) (s : scores) (lower upper : Q) (xa ya : axis), 0 < a -> wf s ->
+  commutes_on succ pred a b (pos s ++ neg s) ->
+  auc succ pred (affine_scores a b s) lower upper xa ya = auc succ pred s lower upper xa ya.
+Proof. exact auc_affine_scores. Qed.
+Print Assumptions C08_partial_auc_affine_compatible.
+
+(* PARTIAL AUC under reversal of the score direction (scores negated, score_class flipped): every window, x-axis
+   any of FPR / TPR / FNR / TNR, any y-axis, on a carrier whose nextafter is symmetric under negation on the
+   object's scores; arbitrary ties, easy samples, both equal_class settings *)
+Theorem C08_partial_auc_negate :
+  forall (isD : Q -> Prop) (succ pred : Q -> Q), carrier isD succ pred ->
+  forall (s : scores), good s -> anticommutes_on succ pred (pos s ++ neg s) ->
+  forall (lower upper : Q) (xa ya : axis), match xa with ATopr | ATonr => False | _ => True end ->
+  auc succ pred (neg_scores s) lower upper xa ya = auc succ pred s lower upper xa ya.
+Proof. exact auc_negate_full. Qed.
+Print Assumptions C08_partial_auc_negate.
+
+(* binary64 is sign-symmetric, so there the reversal statement has no hypothesis on nextafter at all *)
+Theorem C08_partial_auc_negate_binary64 :
+  forall (s : scores), good s ->
+  forall (lower upper : Q) (xa ya : axis), match xa with ATopr | ATonr => False | _ => True end ->
+  auc succ64 pred64 (neg_scores s) lower upper xa ya = auc succ64 pred64 s lower upper xa ya.
+Proof.
+  intros s G lower upper xa ya Hx. apply (auc_negate_full isD64 succ64 pred64 b64_carrier s G); [|exact Hx].
+  intros x _. split; [apply succ64_opp|apply pred64_opp].
+Qed.
+Print Assumptions C08_partial_auc_negate_binary64.
+
+(* non-vacuity: a partial window on an object with a cross-class tie and easy samples, scaled by 4 (commutes in
+   binary64, decided by computation) and reversed; the area is neither 0 nor the width of the window *)
+Example C08_partial_auc_example :
+  let s := mk_scores [1#1; 3#1; 3#1; 5#1] [1#2; 3#1; 4#1] 1 2 Pos Neg false in
+  commutes_on succ64 pred64 4 0 (pos s ++ neg s) /\
+  auc succ64 pred64 (affine_scores 4 0 s) (1#10) (1#2) AFpr ATpr = auc succ64 pred64 s (1#10) (1#2) AFpr ATpr /\
+  auc succ64 pred64 (neg_scores s) (1#10) (1#2) AFpr ATpr = auc succ64 pred64 s (1#10) (1#2) AFpr ATpr /\
+  Qltb 0 (auc succ64 pred64 s (1#10) (1#2) AFpr ATpr) && Qltb (auc succ64 pred64 s (1#10) (1#2) AFpr ATpr) (4#10) = true.
+Proof.
+  split; [apply commutes_onb_ok; vm_compute; reflexivity|].
+  split; [vm_compute; reflexivity|]. split; vm_compute; reflexivity.
+Qed.
 
 (* the bisection only looks at the sign of its function *)
 Theorem C08_find_root_sign_only : forall fuel f g xa xe ff xtol, same_sign f g ->
